@@ -22,7 +22,9 @@ def run(ctx):
     ctx.fan(asan, "lenalign", 16 if th else 2, chunk=1, timeout=300)
     ctx.fan(plain, "lenalign", 16 if th else 2, chunk=1, timeout=300, prefix="plain.")   # -O2 code paths as shipped
     ctx.fan(asan, "bytepos", 28 if th else 7, chunk=1)
-    ctx.fan(asan, "random", 20000 if th else 240, timeout=60)
+    # buffers of 2^31-5 .. 2^32+8005 bytes (sparse zero-page mappings, -O2 build) run beside the rest
+    ctx.fan_parallel([((asan, "random", 20000 if th else 240), dict(timeout=60, max_workers=11)),
+                      ((plain, "huge", 5), dict(chunk=1, timeout=300, max_workers=5, prefix="plain."))])
     s = ctx.stats
     ev = s.get("calls.mtbl_crc32c", 0)
     if not s.get("host.sse42_supported"):
@@ -35,7 +37,7 @@ def run(ctx):
         evaluations=ev,
         distinct=s.get("lenalign.combinations", 0) - 8 * (16 if th else 2) + len(ctx.hashes),
         floors={"lenalign.combinations": 1101 * 8 * 2, "bytepos.cells": 2048, "rfc3720.vectors": 5, "calls.slicing": 10000,
-                "calls.forced_slicing": 70},
+                "calls.forced_slicing": 70, "plain.huge.buffers_ge_2GiB": 5},
         exhaustive=False,
         extra={"implementations_covered": ["mtbl_crc32c", "my_crc32c_slicing"] + (["my_crc32c_sse42"] if s.get("host.sse42_supported") else []),
                "exhaustive_subspace": "lengths 0..1100 x alignments 0..7 (per content variant)"})
